@@ -27,8 +27,11 @@ import (
 type c16Rec struct {
 	V6     bool   `json:"v6"`
 	Prefix int    `json:"prefix"`
-	MaxLen int    `json:"maxlen"` // offset added to the prefix length
+	MaxLen int    `json:"maxlen"` // offset added to the prefix length (of the narrow form)
 	AS     uint32 `json:"as"`
+	// Wide: the covering prefix one bit shorter with the same base address (prefix index made even) and the same
+	// absolute max-length: an aggregate that replaces / is replaced by the narrow record
+	Wide bool `json:"wide,omitempty"`
 }
 
 type c16Op struct {
@@ -67,6 +70,7 @@ func drawC16b(t *rapid.T) c16bCase {
 					Prefix: rapid.IntRange(0, 3).Draw(t, lj+"p"),
 					MaxLen: rapid.SampledFrom([]int{0, 0, 8}).Draw(t, lj+"ml"),
 					AS:     rapid.SampledFrom([]uint32{100, 100, 200, 0}).Draw(t, lj+"as"),
+					Wide:   rapid.IntRange(0, 3).Draw(t, lj+"wide") == 0,
 				})
 				op.Withdraw = append(op.Withdraw, rapid.IntRange(0, 3).Draw(t, lj+"w") == 0)
 			}
@@ -78,15 +82,28 @@ func drawC16b(t *rapid.T) c16bCase {
 }
 
 func c16RecPrefix(r c16Rec) (netip.Addr, uint8) {
-	if r.V6 {
-		return netip.AddrFrom16([16]byte{0x20, 0x01, 0x0d, 0xb8, 0, byte(r.Prefix)}), 48
+	w := uint8(0)
+	if r.Wide {
+		r.Prefix &^= 1
+		w = 1
 	}
-	return netip.AddrFrom4([4]byte{10, byte(r.Prefix), 0, 0}), 16
+	if r.V6 {
+		return netip.AddrFrom16([16]byte{0x20, 0x01, 0x0d, 0xb8, 0, byte(r.Prefix)}), 48 - w
+	}
+	return netip.AddrFrom4([4]byte{10, byte(r.Prefix), 0, 0}), 16 - w
+}
+
+// c16RecMax is the record's max-length (absolute; the same for the narrow and the wide form).
+func c16RecMax(r c16Rec) int {
+	if r.V6 {
+		return 48 + r.MaxLen
+	}
+	return 16 + r.MaxLen
 }
 
 func c16RecKey(host string, r c16Rec) string {
 	a, l := c16RecPrefix(r)
-	return fmt.Sprintf("%s/%d-%d AS%d %s", a, l, int(l)+r.MaxLen, r.AS, host)
+	return fmt.Sprintf("%s/%d-%d AS%d %s", a, l, c16RecMax(r), r.AS, host)
 }
 
 type c16Model struct {
@@ -252,7 +269,7 @@ func runC16b(c c16bCase, st *verifkit.Stats) *verifkit.Failure {
 				if op.Withdraw[j] {
 					flags = 0
 				}
-				feed(host, rtr.NewRTRIPPrefix(a, l, uint8(int(l)+r.MaxLen), r.AS, flags))
+				feed(host, rtr.NewRTRIPPrefix(a, l, uint8(c16RecMax(r)), r.AS, flags))
 				ops = append(ops, pend{c16RecKey(host, r), op.Withdraw[j]})
 			}
 			if op.NoEOD {
